@@ -113,7 +113,7 @@ func emitKS(stream string, k, iv [4]uint32, n int) {
 func emitNEA1(stream string, ck [16]byte, count, bearer, dir uint32, ibs []byte, length uint32) []byte {
 	var out []byte
 	var err error
-	in0 := append([]byte(nil), ibs...)
+	in0 := hk.ExactNil(ibs)
 	ck0 := ck
 	panicked, pv := hk.Catch(func() { out, err = security.NEA1(ck, count, bearer, dir, ibs, length) })
 	in := map[string]interface{}{"op": "NEA1", "key": hk.Hex(ck[:]), "count": count, "bearer": bearer, "direction": dir,
@@ -180,7 +180,7 @@ func emitNEA1(stream string, ck [16]byte, count, bearer, dir uint32, ibs []byte,
 func emitNIA1(stream string, ik [16]byte, count uint32, bearer byte, dir uint32, msg []byte, length uint64) []byte {
 	var mac []byte
 	var err error
-	m0 := append([]byte(nil), msg...)
+	m0 := hk.ExactNil(msg)
 	ik0 := ik
 	panicked, pv := hk.Catch(func() { mac, err = security.NIA1(ik, count, bearer, dir, msg, length) })
 	in := map[string]interface{}{"op": "NIA1", "key": hk.Hex(ik[:]), "count": count, "bearer": bearer, "direction": dir,
@@ -229,17 +229,17 @@ func emitNIA1(stream string, ik [16]byte, count uint32, bearer byte, dir uint32,
 // ---------------------------------------------------------------- security.NASEncrypt, AlgoID 1
 
 func encrypt(ck [16]byte, count uint32, bearer, dir uint8, p []byte) (out []byte, err error, panicked bool) {
-	out = append([]byte{}, p...)
+	out = hk.Exact(p)
 	panicked, _ = hk.Catch(func() { err = security.NASEncrypt(security.AlgCiphering128NEA1, ck, count, bearer, dir, out) })
 	return
 }
 
 func emitEnc(stream string, ck [16]byte, count uint32, bearer, dir uint8, payload []byte) {
-	p0 := append([]byte{}, payload...)
+	p0 := hk.Exact(payload)
 	ck0 := ck
 	in := map[string]interface{}{"op": "NASEncrypt", "alg": 1, "key": hk.Hex(ck[:]), "count": count, "bearer": bearer,
 		"direction": dir, "payload": hk.Hex(p0)}
-	buf := append([]byte{}, payload...)
+	buf := hk.Exact(payload)
 	var err error
 	panicked, pv := hk.Catch(func() {
 		err = security.NASEncrypt(security.AlgCiphering128NEA1, ck, count, bearer, dir, buf)
@@ -314,11 +314,11 @@ func emitEnc(stream string, ck [16]byte, count uint32, bearer, dir uint8, payloa
 // ---------------------------------------------------------------- security.NASMacCalculate, AlgoID 1
 
 func emitMac(stream string, ik [16]byte, count uint32, bearer, dir uint8, msg []byte) {
-	m0 := append([]byte{}, msg...)
+	m0 := hk.Exact(msg)
 	ik0 := ik
 	in := map[string]interface{}{"op": "NASMacCalculate", "alg": 1, "key": hk.Hex(ik[:]), "count": count, "bearer": bearer,
 		"direction": dir, "msg": hk.Hex(m0)}
-	buf := append([]byte{}, msg...)
+	buf := hk.Exact(msg)
 	var mac []byte
 	var err error
 	panicked, pv := hk.Catch(func() {
@@ -498,7 +498,7 @@ func knownAnswers() {
 		got := emitNEA1("known-answers", ik1, 0x72a4f20f, 0x0c, 1, in, uint32(n))
 		ok := len(got) == len(want)
 		if ok {
-			g := append([]byte{}, got...)
+			g := hk.Exact(got)
 			if n%8 != 0 {
 				g[len(g)-1] &= 0xff << (8 - n%8) // only the first n bits are defined by the standard
 			}
